@@ -974,46 +974,47 @@ func (r *Run) checkPositionalReducer(fn *ssa.Function, call *ssa.Call, mapF, red
 		fail("unexpected worker/reducer signature")
 		return
 	}
-	// the field that carries the index
+	// the field that carries the index: the one the reducer places its value by (acc[value.F])
 	var carrier *types.Var
-	for _, ins := range allInstrs(mapF) {
+	for _, ins := range allInstrs(redF) {
 		st, ok := ins.(*ssa.Store)
-		if !ok || unwrap(st.Val) != ssa.Value(mapF.Params[0]) {
+		if !ok || carrier != nil {
 			continue
 		}
-		if fa, ok := st.Addr.(*ssa.FieldAddr); ok {
-			if _, isAlloc := fa.X.(*ssa.Alloc); isAlloc {
-				carrier = fieldOf(fa)
+		if ia, ok := st.Addr.(*ssa.IndexAddr); ok && ia.X == ssa.Value(redF.Params[0]) {
+			if ld, ok := ia.Index.(*ssa.UnOp); ok && ld.Op == token.MUL {
+				if fa, ok := ld.X.(*ssa.FieldAddr); ok && fa.X == ssa.Value(redF.Params[1]) {
+					carrier = fieldOf(fa)
+				}
 			}
 		}
 	}
 	if carrier == nil {
-		fail("the worker's result does not carry the worker's index")
+		fail("the reducer does not index its accumulator by a field of the worker's result")
 		return
 	}
-	// every successful return yields a struct whose carrier field was stored from the index
-	for _, ret := range returnsOf(mapF) {
-		vals := retVals(ret)
-		if len(vals) != 2 || !isNilConst(unwrap(vals[1])) {
-			continue
-		}
-		al, ok := unwrap(vals[0]).(*ssa.Alloc)
-		stored := false
-		if ok {
-			for _, ref := range *al.Referrers() {
-				if fa, ok := ref.(*ssa.FieldAddr); ok && fieldOf(fa) == carrier {
-					for _, r2 := range *fa.Referrers() {
-						if st, ok := r2.(*ssa.Store); ok && unwrap(st.Val) == ssa.Value(mapF.Params[0]) {
-							stored = true
-						}
-					}
-				}
-			}
-		}
-		if !stored {
-			fail("a successful return of the worker does not carry its index (at " + r.P.pos(retPos(ret)) + ")")
+	// every successful return of the worker yields a struct whose carrier field was stored from
+	// the worker's index — in the worker itself, in a constructor it calls with the index, or in
+	// the function whose whole result the worker returns (judged there, with the parameter the
+	// index is passed for)
+	nRet := 0
+	for _, wr := range r.workerReturns(mapF, mapF.Params[0], 0) {
+		if wr.val == nil {
+			fail("a return of the worker has an unexpected shape (at " + r.P.pos(retPos(wr.ret)) + ")")
 			return
 		}
+		if !isNilConst(unwrap(wr.err)) {
+			continue
+		}
+		if wr.idx == nil || !r.carriesIndex(unwrap(wr.val), wr.idx, wr.ret, carrier, 0) {
+			fail("the worker's result does not carry the worker's index: a successful return does not have ." + carrier.Name() + " set from it (at " + r.P.pos(retPos(wr.ret)) + ")")
+			return
+		}
+		nRet++
+	}
+	if nRet == 0 {
+		fail("the worker's result does not carry the worker's index: no successful return was found")
+		return
 	}
 	// reducer: one store, at acc[value.carrier]; returns acc
 	stores := 0
